@@ -678,6 +678,10 @@ def confirm_point(c):
 
 
 def replay(payload):
+    if isinstance(payload.get("replay"), dict) and payload["replay"].get("interleaved"):
+        r = interleaved_task(tuple(payload["replay"]["interleaved"]))
+        print(r)
+        return all(v <= 1e-9 for v in r["dev"].values())
     c = payload["replay"]
     st, err, lim, ad, fd, _, detail = confirm_point(c)
     print(f"   {row_key(c)} | {c['name']} | {c['output']} | {c['what']}: status {st}; autograd {ad!r}; finite difference {fd!r}; |diff| {err} limit {lim} {detail}")
@@ -741,10 +745,83 @@ def _collect_fd(tasks, results):
     return FDP, FDPC, FDG, CENTRE
 
 
+def interleaved_task(item):
+    """forward of a differentiable calculation, then UNRELATED package calls, then its backward: the gradients must be
+    those of forward immediately followed by backward (the adjoint solve belongs to its own forward call)."""
+    import torch
+    from seqm.basics import Energy
+
+    from ..drivers import sp
+
+    method, molname, sb, between, seed = item
+    mol = M.apply(M.get(molname), M.generic_rot(seed))
+    names = ["U_ss", "g_ss", "beta_s"]
+
+    def grads(interleave):
+        plain, _ = sp.build([mol], sp.make_params(method, eps=1e-10))
+        base = {n: plain.parameters[n].detach().clone() for n in names}
+        params = dict(sp.make_params(method, eps=1e-10), scf_backward=sb, learned=list(names))
+        nat = len(mol["species"])
+        w = torch.zeros(len(names), nat, dtype=torch.float64, requires_grad=True)
+        lp = {n: base[n] * (1.0 + w[i]) for i, n in enumerate(names)}
+        molecule, _ = sp.build([mol], params, learned=lp)
+        molecule.verbose = False
+        en = Energy(params)
+        Hf, Etot, Eelec, Enuc, Eiso, EnucAB, e_gap, e, P, charge, nc = en(molecule, learned_parameters=lp, all_terms=True)
+        q = P.diagonal(dim1=1, dim2=2)[0, :4].sum()
+        outs = {"gap": e_gap.sum(), "q0": q, "Etot": Etot.sum()}
+        if interleave:
+            for what in between:
+                if what == "sp0":
+                    sp.single_point(M.apply(M.get("CH4"), M.generic_rot(seed + 1)), sp.make_params("PM3", eps=1e-5), names=["Etot"])
+                elif what == "sp1loose":
+                    p2 = dict(sp.make_params("MNDO", eps=1e-4), scf_backward=1)
+                    m2, _ = sp.build([M.apply(M.get("NH3"), M.generic_rot(seed))], p2)
+                    m2.verbose = False
+                    Energy(p2)(m2, all_terms=True)
+        res = {}
+        for k, o in outs.items():
+            (g,) = torch.autograd.grad(o, w, retain_graph=True, allow_unused=True)
+            res[k] = None if g is None else g.detach().numpy().copy()
+        return res
+
+    a = grads(False)
+    b = grads(True)
+    dev = {}
+    for k in a:
+        if a[k] is None or b[k] is None:
+            dev[k] = float("inf") if (a[k] is None) != (b[k] is None) else 0.0
+        else:
+            dev[k] = float(np.abs(a[k] - b[k]).max() / max(1e-12, np.abs(a[k]).max()))
+    return {"dev": dev}
+
+
+def interleavings(chk, tier, seed):
+    items = []
+    for sb in (1, 2):
+        for between in (["sp0"], ["sp1loose"], ["sp0", "sp1loose"]):
+            items.append(("AM1", "H2O", sb, between, seed))
+            if tier != "quick":
+                items.append(("PM3", "H2CO", sb, between, seed))
+    res = pmap(interleaved_task, items, chunk=1, timeout=1800, progress="C07 forward / other calls / backward")
+    for it, r in zip(items, res):
+        key = f"interleaved|{it[0]}|{it[1]}|sb{it[2]}|between={'+'.join(it[3])}"
+        desc = dict(what="interleaved", method=it[0], molecule=it[1], scf_backward=it[2], problem="mismatch", between="+".join(it[3]))
+        if is_error(r) or is_timeout(r):
+            chk.violation(dict(desc, problem="raised"), f"{key}: {str(r)[:300]}", replay={"interleaved": list(it)})
+            continue
+        chk.case(key, nontrivial=True, outcome=str(max(r["dev"].values()) > 0))
+        # measured on the healthy tree: bitwise identical (0.0)
+        bad = {k: v for k, v in r["dev"].items() if v > 1e-9}
+        if bad:
+            chk.violation(dict(desc, output=sorted(bad)[0]), f"{key}: gradients change when other calculations run between forward and backward (relative): {bad}", replay={"interleaved": list(it)})
+
+
 def run(chk, tier, seed):
     import vp
 
     vp.warm()
+    interleavings(chk, tier, seed)
     setups, rows = lattice(tier, seed)
     for m, mol, b in setups:
         setup(m, mol, b, seed)  # in the parent: forked children inherit the cache
